@@ -871,6 +871,11 @@ impl<'a, 'b> Gen<'a, 'b> {
                     }
                 }
             }
+            14 if self.t.chance(1, 3) => {
+                self.tag("stmt-method-call");
+                self.method_chain(1);
+                self.sym(";");
+            }
             14 => {
                 self.tag("stmt-call");
                 let f = *self.t.pick(&["do_task", "run1", "\\t+1"]);
